@@ -52,7 +52,7 @@ theorem C01_encodeFinite (T : Ty) (neg : Bool) (ds : List Nat) (hds : AsciiDigit
     (hq : T.expIsI32 = true → i32Min - ds.length ≤ q ∧ q ≤ i32Max + ds.length) :
     match encodeFinite T neg ds (passed T q) with
     | .ok b => ∃ n, 0 < n ∧ b = ⟨4 * n, encodeFin ⟨n⟩ neg (valOf ds) q⟩ ∧ (Fmt.mk n).fitsB ds.length (some q) = true ∧
-        b.bits < 2 ^ (32 * n) ∧ valOf ds < 10 ^ (Fmt.mk n).p ∧
+        b.bits < 2 ^ (32 * n) ∧ valOf ds < 10 ^ (Fmt.mk n).p ∧ (∀ cap, T.capN = some cap → n ≤ cap) ∧
         (match T.fixedN with
          | some w => n = w
          | none => need ds.length (some q) ≤ n ∧ n ≤ need ds.length (some q) + 1 ∧
@@ -83,7 +83,7 @@ theorem C01_encodeFinite (T : Ty) (neg : Bool) (ds : List Nat) (hds : AsciiDigit
       exact satI32_sufficient q ds.length hd hlo hhi n hb
   | ok b0 =>
     rw [hr] at halloc
-    obtain ⟨n, hb0, hn, hfit, hw⟩ := halloc
+    obtain ⟨n, hb0, hn, hfit, hcapn, hw⟩ := halloc
     subst hb0
     -- the exponent passed on equals the true exponent whenever a buffer was given
     have hqq : passed T q = q := by
@@ -115,7 +115,7 @@ theorem C01_encodeFinite (T : Ty) (neg : Bool) (ds : List Nat) (hds : AsciiDigit
       simp only [Buf.precision, hwb]; omega
     simp only [hwb, hpr]
     have hval : valOf ds < 10 ^ (Fmt.mk n).p := Nat.lt_of_lt_of_le (valOf_lt hds) (Nat.pow_le_pow_right (by decide) hlen)
-    refine ⟨n, hn, hbits, hfit, ?_, hval, hw⟩
+    refine ⟨n, hn, hbits, hfit, ?_, hval, hcapn, hw⟩
     rw [hbits]
     exact encodeFin_lt n hn neg _ (by simpa [Fmt.p] using hval) q ⟨hq1, hq2⟩
 
